@@ -6,6 +6,8 @@ from pyvc import astcheck as A
 from pyvc.base import VC
 
 LEVEL = "other"
+# obligations whose failure is a semantic fact about the tree (not a shape that is no longer recognized): reported as violations on their own
+DEFINITE = ("imports_no_network_or_process_facility", "no_process_spawn_eval_or_shelling_call", "_PACKAGE_is_", "log_file_is_under_dot_log")
 FLOOR = 40
 EXPLANATION = ("Effect contracts over every module of the rp2 package, discharged syntactically on the AST of the current tree: (imports) no module imports a "
                "networking / process-spawning facility and every imported top-level module is on the recorded allowlist - a new import is an open "
